@@ -91,8 +91,8 @@ spec fn chunks_ok(r: Seq<Item>, a: int, b: int, evict: bool, w: SeqNo) -> bool
         let h = r[a]->Ok_0;
         let m = same_key_prefix(r.skip(a + 1), h.key.user_key.rank(), false, !evict) as int;
         ( (dead(h) && evict) || (h.key.value_type == ValueType::WeakTombstone && m >= 1 && r[a + 1]->Ok_0.key.value_type == ValueType::Value) )
-        // C02 (S): versions beneath a dropped head are dropped only if that head is at or below the GC watermark
-            && (m >= 1 ==> h.key.seqno <= w)
+        // C13 (S'): versions are garbage collected beneath a dropped head only from below the GC watermark
+            && (m >= 1 ==> r[a + 1]->Ok_0.key.seqno < w)
             && a + 1 + m <= b && chunks_ok(r, a + 1 + m, b, evict, w)
     }
 }
@@ -166,9 +166,8 @@ spec fn step_struct(r0: Seq<Item>, r1: Seq<Item>, evict: bool, zero: bool, w: Se
                 // C13 (N2): versions dropped beneath an emitted live entry never include a weak tombstone unless this is the
                 // last level - it may still be needed to shadow data in lower levels once the entry above it is cancelled out
                 && (!evict && !dead(r0[i]->Ok_0) ==> forall|j: int| i < j < n ==> (#[trigger] r0[j])->Ok_0.key.value_type != ValueType::WeakTombstone)
-                // C02 (S): versions beneath the emitted entry are dropped only if it is at or below the GC watermark,
-                // i.e. visible to every snapshot still in use
-                && (n > i + 1 ==> r0[i]->Ok_0.key.seqno <= w)
+                // C13 (S'): versions are garbage collected beneath the emitted entry only from below the GC watermark
+                && (n > i + 1 ==> r0[i + 1]->Ok_0.key.seqno < w)
                 && chunks_ok(r0, 0, i, evict, w),
     }
 }
@@ -219,13 +218,13 @@ impl<F: StreamFilter> CompactionStream<F> {
             }),
     { unimplemented!() }
 
-//@ FROM src/compaction/stream.rs :: Iterator for CompactionStream :: fn next :: OBL C01.6, C09.1, C13.2, C02.11
+//@ FROM src/compaction/stream.rs :: Iterator for CompactionStream :: fn next :: OBL C01.6, C09.1, C13.2
 //@ SUBST `Self :: Item` ==> `Item`
  /*+*/#[verifier::rlimit(1500)]/*-*/ fn next (&mut self) ->  /*+*/(r:/*-*/ Option < Item >  /*+*/)
         requires keys_sorted(old(self).inner.rest()), old(self).has_cb(),
         ensures
             final(self).same_cfg(old(self)),
-            step_struct(old(self).inner.rest(), final(self).inner.rest(), old(self).evict_tombstones, old(self).zero_seqnos, old(self).gc_seqno_threshold, r),   // @OBL C01.6, C13.2, C02.11
+            step_struct(old(self).inner.rest(), final(self).inner.rest(), old(self).evict_tombstones, old(self).zero_seqnos, old(self).gc_seqno_threshold, r),   // @OBL C01.6, C13.2
             step_log(old(self).inner.rest(), final(self).inner.rest(), old(self).log(), final(self).log(), old(self).zero_seqnos, r),   // @OBL C09.1
         /*-*/ {
  /*+*/let ghost r0 = self.inner.rest();
@@ -234,7 +233,7 @@ impl<F: StreamFilter> CompactionStream<F> {
         proof { assert(r0.skip(0) =~= r0); assert(vals(r0.take(0)) =~= Seq::<InternalValue>::empty()); assert(live(l0) + live(Seq::<InternalValue>::empty()) =~= live(l0)); }/*-*/ loop  /*+*/invariant
                 self.same_cfg(old(self)),
                 0 <= k <= r0.len(), self.inner.rest() == r0.skip(k), all_ok(r0.take(k)),
-                r0 == old(self).inner.rest(), keys_sorted(r0), chunks_ok(r0, 0, k, self.evict_tombstones, self.gc_seqno_threshold),   // @OBL C01.6, C13.2, C02.11
+                r0 == old(self).inner.rest(), keys_sorted(r0), chunks_ok(r0, 0, k, self.evict_tombstones, self.gc_seqno_threshold),   // @OBL C01.6, C13.2
                 self.has_cb(), l0 == old(self).log(),
                 live(self.log()) == live(l0) + live(vals(r0.take(k))),   // @OBL C09.1
             decreases self.inner.rest().len()/*-*/ {
@@ -287,14 +286,14 @@ if head.is_tombstone () &&self.evict_tombstones {
  /*+*/proof {
                             assert(r0.skip(h + 1)[0] == r0[h + 1]);
                             assert(same_key_prefix(r0.skip(h + 1), r0[h]->Ok_0.key.user_key.rank(), false, !self.evict_tombstones) == 0);
-                            assert(chunks_ok(r0, h + 1, h + 1, self.evict_tombstones, self.gc_seqno_threshold));   // @OBL C01.6, C13.2, C02.11
-                            assert(chunks_ok(r0, h, h + 1, self.evict_tombstones, self.gc_seqno_threshold));   // @OBL C01.6, C13.2, C02.11
-                            lemma_chunks_append(r0, 0, h, h + 1, self.evict_tombstones, self.gc_seqno_threshold);   // @OBL C01.6, C13.2, C02.11
+                            assert(chunks_ok(r0, h + 1, h + 1, self.evict_tombstones, self.gc_seqno_threshold));   // @OBL C01.6, C13.2
+                            assert(chunks_ok(r0, h, h + 1, self.evict_tombstones, self.gc_seqno_threshold));   // @OBL C01.6, C13.2
+                            lemma_chunks_append(r0, 0, h, h + 1, self.evict_tombstones, self.gc_seqno_threshold);   // @OBL C01.6, C13.2
                             assert(dead(r0[h]->Ok_0));
                         }/*-*/ continue;
 }
 }
-else if head.key.seqno <= self.gc_seqno_threshold {
+else if peeked.key.seqno < self.gc_seqno_threshold {
 if head.key.value_type == ValueType::Tombstone &&self.evict_tombstones {
  /*+*/let ghost s = self.inner.rest();
                         proof {
@@ -307,9 +306,9 @@ if head.key.value_type == ValueType::Tombstone &&self.evict_tombstones {
                             lemma_prefix(s, head.key.user_key.rank(), false, false);
                             assert(r0.skip(k).skip(m) =~= r0.skip(k + m));
                             lemma_take_ok(r0, k, m, head.key.user_key.rank());
-                            assert(chunks_ok(r0, h + 1 + m, h + 1 + m, self.evict_tombstones, self.gc_seqno_threshold));   // @OBL C01.6, C13.2, C02.11
-                            assert(chunks_ok(r0, h, h + 1 + m, self.evict_tombstones, self.gc_seqno_threshold));   // @OBL C01.6, C13.2, C02.11
-                            lemma_chunks_append(r0, 0, h, h + 1 + m, self.evict_tombstones, self.gc_seqno_threshold);   // @OBL C01.6, C13.2, C02.11
+                            assert(chunks_ok(r0, h + 1 + m, h + 1 + m, self.evict_tombstones, self.gc_seqno_threshold));   // @OBL C01.6, C13.2
+                            assert(chunks_ok(r0, h, h + 1 + m, self.evict_tombstones, self.gc_seqno_threshold));   // @OBL C01.6, C13.2
+                            lemma_chunks_append(r0, 0, h, h + 1 + m, self.evict_tombstones, self.gc_seqno_threshold);   // @OBL C01.6, C13.2
                             assert(dead(r0[h]->Ok_0));
                             lemma_vals_split(r0, h + 1, m);   // @OBL C09.1
                             lemma_live_add(lg, vals(s.take(m)));   // @OBL C09.1
@@ -349,9 +348,9 @@ let keep_weak_tombstones = !head.is_tombstone () &&!self.evict_tombstones;
                             assert(s[0] == r0[h + 1]);
                             assert(krank(r0[h]) <= krank(r0[h + 1]));
                             assert(m >= 1);
-                            assert(chunks_ok(r0, h + 1 + m, h + 1 + m, self.evict_tombstones, self.gc_seqno_threshold));   // @OBL C01.6, C13.2, C02.11
-                            assert(chunks_ok(r0, h, h + 1 + m, self.evict_tombstones, self.gc_seqno_threshold));   // @OBL C01.6, C13.2, C02.11
-                            lemma_chunks_append(r0, 0, h, h + 1 + m, self.evict_tombstones, self.gc_seqno_threshold);   // @OBL C01.6, C13.2, C02.11
+                            assert(chunks_ok(r0, h + 1 + m, h + 1 + m, self.evict_tombstones, self.gc_seqno_threshold));   // @OBL C01.6, C13.2
+                            assert(chunks_ok(r0, h, h + 1 + m, self.evict_tombstones, self.gc_seqno_threshold));   // @OBL C01.6, C13.2
+                            lemma_chunks_append(r0, 0, h, h + 1 + m, self.evict_tombstones, self.gc_seqno_threshold);   // @OBL C01.6, C13.2
                             assert(dead(r0[h]->Ok_0));
                         }/*-*/ continue;
 }
@@ -361,9 +360,9 @@ else if head.is_tombstone () &&self.evict_tombstones {
  /*+*/proof {
                     assert(r0.skip(h + 1).len() == 0);
                     assert(same_key_prefix(r0.skip(h + 1), r0[h]->Ok_0.key.user_key.rank(), false, !self.evict_tombstones) == 0);
-                    assert(chunks_ok(r0, h + 1, h + 1, self.evict_tombstones, self.gc_seqno_threshold));   // @OBL C01.6, C13.2, C02.11
-                    assert(chunks_ok(r0, h, h + 1, self.evict_tombstones, self.gc_seqno_threshold));   // @OBL C01.6, C13.2, C02.11
-                    lemma_chunks_append(r0, 0, h, h + 1, self.evict_tombstones, self.gc_seqno_threshold);   // @OBL C01.6, C13.2, C02.11
+                    assert(chunks_ok(r0, h + 1, h + 1, self.evict_tombstones, self.gc_seqno_threshold));   // @OBL C01.6, C13.2
+                    assert(chunks_ok(r0, h, h + 1, self.evict_tombstones, self.gc_seqno_threshold));   // @OBL C01.6, C13.2
+                    lemma_chunks_append(r0, 0, h, h + 1, self.evict_tombstones, self.gc_seqno_threshold);   // @OBL C01.6, C13.2
                     assert(dead(r0[h]->Ok_0));
                 }/*-*/ continue;
 }
